@@ -17,6 +17,14 @@
 (*   {"e":"log",  "g":g,"k":k,"level":l,"arg":{"k":..,"g":..,"i":..},         *)
 (*        "src":{"k":"lit"|"win","b":{..},"n":n}, "after":[..],               *)
 (*        "w":[{"label":l,"pid":p,"cid":c,"whole":b}, ...]}                   *)
+(*        "m":{"form":"ln"|"f","shape":s} = call form and shape of the rendered  *)
+(*        message (LoggerCid!AllShapes); w = EVERY Write call that carried    *)
+(*        anything of this call - the unit is the Write, not the text line:   *)
+(*        whole = the write is label, time, prefix and the call's entire      *)
+(*        message (interior newlines, CR, 64 KiB and all), newline-terminated *)
+(*        The Cid() of an application object that is not in 1..2^31-1 (0,     *)
+(*        negative, 64-bit) is written as a code <= -10 in arg.i and - when   *)
+(*        the line prints exactly its decimal form - in w[..].cid.            *)
 (*        src = how the operands were passed (written out in the call, or the *)
 (*        first n cells of slice b); after = the cells of b up to its capacity*)
 (*        as the caller found them when the call had returned: j = what the   *)
@@ -95,12 +103,13 @@ Observed(w, line) == /\ w.whole
 TLog(e) == /\ e.e = "log"
            /\ e.k = nlog[e.g] + 1
            /\ e.level \in AllLevels
+           /\ e.m.form \in AllForms /\ e.m.shape \in AllShapes
            /\ \/ /\ Len(e.w) = 1             \* one write, and it is the specification's line
-                 /\ LogCall(e.g, e.level, e.arg, e.src, TRUE)
+                 /\ LogCall(e.g, e.level, e.arg, e.src, e.m, TRUE)
                  /\ Observed(e.w[1], out'[Len(out')])
               \/ /\ Len(e.w) = 0             \* nothing at the writer: only for a level that
                  /\ e.level \notin Routed    \* Switch does not route to it (Info)
-                 /\ LogCall(e.g, e.level, e.arg, e.src, FALSE)
+                 /\ LogCall(e.g, e.level, e.arg, e.src, e.m, FALSE)
            \* the caller's slice after the call is the specification's: untouched, up to its capacity
            /\ e.src.k = "win" => e.after = buf'[e.src.b]
            /\ UNCHANGED floor
